@@ -1,7 +1,7 @@
 (** * CorrSound: the attribution evaluator of SolverCorr.v ([loop_p], [run_p], [exec_p]) computes what the model computes
     whenever the model returns. *)
 From Coq Require Import ZArith String List Bool PrimFloat.
-From GP Require Import ArithDef FloatUtil UnitsCore PyUnits QOps Motor Solver SolverCorr.
+From GP Require Import ArithDef FloatUtil UnitsCore PyUnits QOps Motor Solver SolverProofs SolverSegs SolverCorr.
 Import ListNotations.
 
 Section S.
@@ -44,5 +44,15 @@ Proof.
     + try rewrite E; now apply IH.
     + try rewrite E; now apply IH.
     + try rewrite E; now apply IH.
+Qed.
+(** the segmented evaluator (a chain and a load per segment) against the generic segmented schedule of SolverSegs.v *)
+Definition seg_of (x : @chain FX * @loadexpr FX * list (@sop FX)) : @seg FX := (fst (fst x), eval_load (snd (fst x)), snd x).
+Lemma exec_segs_t_ok : forall segs st st' acc,
+  SolverSegs.exec_segs (map seg_of segs) st = Ok st' -> exists acc', exec_segs_t O segs st acc = (st', None, acc').
+Proof.
+  induction segs as [|[[c l] ops] segs IH]; intros st st' acc H; cbn [map SolverSegs.exec_segs exec_segs_t seg_of fst snd] in *.
+  - inversion H. now eexists.
+  - destruct (exec c (eval_load l) ops st) as [st1|e] eqn:E; cbn [bind] in H; [|discriminate H].
+    destruct (exec_t_ok c (eval_load l) ops st st1 acc E) as (acc1 & ->). now apply IH.
 Qed.
 End S.
